@@ -129,3 +129,28 @@ func VerifDecodeQueryResponse(buf []byte) (VerifQueryResponse, bool) {
 // VerifSetEventJoinIgnore sets the flag Join(existing, ignoreOld=true) holds
 // while its push/pull runs.
 func (s *Serf) VerifSetEventJoinIgnore(v bool) { s.eventJoinIgnore.Store(v) }
+
+// VerifDecodeFilter decodes one query filter entry with the same calls
+// shouldProcessQuery makes. kind is "empty", "node", "tag", "undecodable" or
+// "unknown"; names is set for "node", tag and expr for "tag".
+func VerifDecodeFilter(filter []byte) (kind string, names []string, tag, expr string) {
+	if len(filter) == 0 {
+		return "empty", nil, "", ""
+	}
+	switch filterType(filter[0]) {
+	case filterNodeType:
+		var nodes filterNode
+		if err := decodeMessage(filter[1:], &nodes); err != nil {
+			return "undecodable", nil, "", ""
+		}
+		return "node", []string(nodes), "", ""
+	case filterTagType:
+		var filt filterTag
+		if err := decodeMessage(filter[1:], &filt); err != nil {
+			return "undecodable", nil, "", ""
+		}
+		return "tag", nil, filt.Tag, filt.Expr
+	default:
+		return "unknown", nil, "", ""
+	}
+}
